@@ -208,6 +208,38 @@ func (r *scriptReader) Read(p []byte) (int, error) {
 	return n, nil
 }
 
+// failingReader delivers data and then fails for ever with err (never EOF).
+type failingReader struct {
+	data    []byte
+	pos     int
+	oneByte bool
+	attach  bool // the error comes together with the last bytes instead of on the call after them
+	err     error
+}
+
+func (f *failingReader) Read(p []byte) (int, error) {
+	if len(p) == 0 {
+		return 0, nil
+	}
+	rem := len(f.data) - f.pos
+	if rem == 0 {
+		return 0, f.err
+	}
+	n := len(p)
+	if f.oneByte {
+		n = 1
+	}
+	if n > rem {
+		n = rem
+	}
+	copy(p, f.data[f.pos:f.pos+n])
+	f.pos += n
+	if f.pos == len(f.data) && f.attach {
+		return n, f.err
+	}
+	return n, nil
+}
+
 // decodeAll drives the real ReadData to the end.
 func decodeAll(r io.Reader) (chunks [][]byte, err error) {
 	for i := 0; i < 1<<20; i++ {
@@ -397,6 +429,59 @@ func TestVerifEnum(t *testing.T) {
 				checkDecode(r, "truncation", part, ref, &scriptReader{data: part, mode: st}, func() interface{} {
 					return map[string]interface{}{"ops": describe(seq), "cut_at": cut, "of": len(stream), "reader": strategyName[st]}
 				})
+			}
+		}
+	}
+
+	// 2b. a reader that fails with an error other than EOF at every byte offset
+	r.Begin("reader-error", "the same sequences; the reader delivers the stream up to every byte offset k and then fails with a non-EOF error (as a torn network carrier does), either as (0, err) on the next call or attached to the bytes of the read that reaches k; reads before k are full or one byte at a time; oracle: every chunk returned is exactly the next chunk written and lies wholly before k, decoding ends with a non-nil error, and that error is not EOF when k is inside a chunk")
+	errCarrier := fmt.Errorf("carrier torn")
+	for _, seq := range tseqs {
+		if !r.Mine() {
+			continue
+		}
+		if r.TimeUp() {
+			break
+		}
+		stream, want, err := encode(seq)
+		if err != nil {
+			continue
+		}
+		for cut := 0; cut <= len(stream); cut++ {
+			if len(stream) > 2000 && cut > 8 && cut < len(stream)-8 && cut%257 != 0 {
+				continue
+			}
+			ref := refDecode(stream[:cut]) // chunks wholly before k; ref.err == io.EOF iff k is a chunk boundary
+			for mode := 0; mode < 4; mode++ {
+				mode := mode
+				r.Case(fmt.Sprintf("re|%s|%d|%d", describe(seq), cut, mode), true)
+				rd := &failingReader{data: stream[:cut], oneByte: mode&1 != 0, attach: mode&2 != 0, err: errCarrier}
+				var got [][]byte
+				var derr error
+				what := func() interface{} {
+					return map[string]interface{}{"ops": describe(seq), "reader_fails_at": cut, "of": len(stream), "one_byte_reads": rd.oneByte, "error_attached_to_last_bytes": rd.attach}
+				}
+				p, val, stack := en.Try(func() { got, derr = decodeAll(rd) })
+				if p {
+					r.Fail("reader-error:panic@"+en.PanicSite(stack), "ReadData panicked: "+val+" "+stack, what())
+					continue
+				}
+				bad := len(got) > len(ref.chunks)
+				for i := 0; i < len(got) && i < len(ref.chunks); i++ {
+					if !bytes.Equal(got[i], ref.chunks[i]) {
+						bad = true
+					}
+				}
+				switch {
+				case bad:
+					r.Fail("reader-error:data-not-written-returned", fmt.Sprintf("ReadData returned chunks of lengths %v although only %v had been delivered intact before the reader failed (written: %v)", lens(got), lens(ref.chunks), lens(want)), what())
+				case derr == nil:
+					r.Fail("reader-error:no-error", "decoding did not end with an error", what())
+				case derr == io.EOF && ref.err != io.EOF:
+					r.Fail("reader-error:clean-eof-inside-chunk", "a reader failing inside a chunk was reported as a clean end of stream (io.EOF)", what())
+				case len(got) < len(ref.chunks):
+					r.Fail("reader-error:lost-data", fmt.Sprintf("ReadData returned %d chunks, %d were delivered intact before the reader failed", len(got), len(ref.chunks)), what())
+				}
 			}
 		}
 	}
